@@ -313,7 +313,11 @@ pub fn check_wide(model: &str, print: &str) -> Result<Option<String>, String> {
 }
 
 /// Failure configurations: a message, no crash.
-pub fn check_failure(b: &Bound, which: &str) -> Option<String> {
+pub fn check_failure(b: &Bound, which_full: &str) -> Option<String> {
+    let (which, print_opt) = match which_full.split_once(" @ ") {
+        Some((w, p)) => (w, Some(p)),
+        None => (which_full, None),
+    };
     let dir = tempfile::tempdir().ok()?;
     let m = dir.path().join("model.aeon");
     let f = dir.path().join("f.txt");
@@ -415,6 +419,14 @@ pub fn check_failure(b: &Bound, which: &str) -> Option<String> {
         }
         _ => return None,
     };
+    // `which` may carry a print option after " @ " (every failure is tried under every print option)
+    let mut args = args;
+    if let Some(p) = print_opt {
+        if !args.iter().any(|a| a == "-p") {
+            args.push("-p".into());
+            args.push(p.to_string());
+        }
+    }
     let argv: Vec<&str> = args.iter().map(|s| s.as_str()).collect();
     let out = match cli::run(&cli::checker_bin(), &argv, None, 60.0) {
         Ok(o) => o,
@@ -610,15 +622,18 @@ pub fn run(tier: &str) -> Result<Report, String> {
     ];
     let b = by_name(&nets, "con2");
     for w in failures {
-        rep.evaluations += 1;
-        if let Some(what) = check_failure(&b, w) {
-            rep.violations.push(Violation { case: json!({"kind": "cli", "net": b.spec, "failure": w}), what, size: 1 });
+        for p in ["", "no-print", "summary", "with-progress", "exhaustive"] {
+            let full = if p.is_empty() { w.to_string() } else { format!("{w} @ {p}") };
+            rep.evaluations += 1;
+            if let Some(what) = check_failure(&b, &full) {
+                rep.violations.push(Violation { case: json!({"kind": "cli", "net": b.spec, "failure": full}), what: if p.is_empty() { what } else { format!("[-p {p}] {what}") }, size: 1 });
+            }
         }
     }
     rep.set("failure_configurations", json!(failures));
     rep.sample(json!({"network": "con2", "format": "sbml", "layout": 6, "print": "exhaustive", "-o": true, "formulae": plain_lists[1]}));
     rep.sample(json!({"formula_file_layout_6": formula_file(&plain_lists[2], 6)}));
-    rep.rule = format!("the hctl-model-checker binary built from the working tree is executed on {which:?} x model format (aeon, bnet, sbml where the format reproduces the network) x {LAYOUTS} formula-file layouts (comments, blank lines, surrounding blanks/tabs, CRLF, no final newline, mixed) x 4 print options x with/without -o x 3 plain + 2 extended formula lists, plus context archives whose sets are not confined to the valid colours (whole symbolic space, a raw state variable) on constrained networks, plus wide synthetic models (60 / 70 variables: counts beyond 2^53 and 2^64 must be printed as the library's numbers), plus four networks whose variable names are unusual as data (Ca_extra_cell / b_extra_1, x / xx, a / ab, EF1 / TRUE) with five formulae each, plus 24 single-operator formula files (each unary / binary / hybrid operator and pattern in a file of its own) (context archive with labels p, d, dom_1 written for the k the tool derives), plus context archives written for k-1, k+1, k+2 and 20 failure configurations (7 of them formula files that cannot be read or parsed completely: the tool must report a problem or evaluate every formula, never a silent prefix, and every result block it does print must carry the numbers of its own formula). Compared: order and text of Formula blocks, printed result/colour/state counts vs exact counts of the library's sets, exhaustive state listing, archive entry list, formulae.txt, every archived BDD vs model_check_multiple_(extended_)formulae_dirty; failures must produce a message and no crash. distinct_nontrivial = executed configurations");
+    rep.rule = format!("the hctl-model-checker binary built from the working tree is executed on {which:?} x model format (aeon, bnet, sbml where the format reproduces the network) x {LAYOUTS} formula-file layouts (comments, blank lines, surrounding blanks/tabs, CRLF, no final newline, mixed) x 4 print options x with/without -o x 3 plain + 2 extended formula lists, plus context archives whose sets are not confined to the valid colours (whole symbolic space, a raw state variable) on constrained networks, plus wide synthetic models (60 / 70 variables: counts beyond 2^53 and 2^64 must be printed as the library's numbers), plus four networks whose variable names are unusual as data (Ca_extra_cell / b_extra_1, x / xx, a / ab, EF1 / TRUE) with five formulae each, plus 24 single-operator formula files (each unary / binary / hybrid operator and pattern in a file of its own) (context archive with labels p, d, dom_1 written for the k the tool derives), plus context archives written for k-1, k+1, k+2 and 20 failure configurations, each under the default and under every print option (7 of them formula files that cannot be read or parsed completely: the tool must report a problem or evaluate every formula, never a silent prefix, and every result block it does print must carry the numbers of its own formula). Compared: order and text of Formula blocks, printed result/colour/state counts vs exact counts of the library's sets, exhaustive state listing, archive entry list, formulae.txt, every archived BDD vs model_check_multiple_(extended_)formulae_dirty; failures must produce a message and no crash. distinct_nontrivial = executed configurations");
     rep.assumptions.push("counts are compared with exact cardinalities computed from the point-wise read-back of the library's sets on valid colours".into());
     Ok(rep)
 }
